@@ -44,6 +44,7 @@ var clientFSStubs = map[string]string{
 	"os.ReadFile":      "verifStubReadFile",
 	"os.WriteFile":     "verifStubOSWriteFile",
 	"os.OpenFile":      "verifStubOpenFile",
+	"os.Open":          "verifStubOpen",
 	"os.Stat":          "verifStubStat",
 	"os.CreateTemp":    "verifStubCreateTemp",
 	"os.Remove":        "verifStubRemove",
@@ -77,13 +78,13 @@ func ch(name string, params, thorough map[string]int, reach []string, desc strin
 		ModelOnlyLabels: map[string]string{"undecodable-cache-ignored-as-a-whole": jsonPartialNote, "undecodable-cache-contributes-no-names": jsonPartialNote,
 			"no-request-under-lock": lockNote, "lock-released": lockNote, "lockset": lockNote, "rebuild-is-atomic-under-updater-lock": lockNote,
 			"flight-in-progress-never-forgotten": sfNote, "concurrent-registration-not-lost": sfNote,
+			"first-callers-handle-follows-the-install": sfNote, "second-callers-handle-follows-the-install": sfNote, "a-later-handle-follows-the-install": sfNote,
 			"every-failed-field-is-reported": egNote, "only-fields-whose-own-lookup-failed-stay-unfilled": egNote}}
 }
 
 const egNote = "the order in which the tasks of an errgroup run is fixed by the model (order of the Go calls); the native run schedules them freely"
 
 const sfNote = "the second caller (another goroutine's flight or registration at a chosen point of the schedule) exists only in the singleflight model; the native run has one goroutine"
-
 
 func init() {
 	fsNote := "file-system faults and kills are a model; realising them natively needs ptrace fault injection"
@@ -110,7 +111,8 @@ func init() {
 		ch("verifHarnessC10NewStoreDoc", map[string]int{"names": 2, "fails": 1, "entrykinds": 2}, map[string]int{"names": 2, "fails": 2, "entrykinds": 3}, []string{"end-ok", "end-from-cache"}, "flush after initial fetch; restart from any cache document without contacting the service"),
 		ch("verifHarnessC10NewStoreBadCache", map[string]int{"fails": 1, "entrykinds": 2}, map[string]int{"fails": 2, "entrykinds": 3}, []string{"end-ok"}, "unreadable, empty or arbitrary cache contents are never fatal"),
 		ch("verifHarnessC11Refresh", map[string]int{"names": 2}, map[string]int{"names": 3}, []string{"end-ok"}, "flush after a poll that changed something holds the post-state"),
-		ch("verifHarnessC16Lookup", map[string]int{"names": 2}, map[string]int{"names": 3}, []string{"end-installed"}, "flush after a lookup install"))
+		ch("verifHarnessC16Lookup", map[string]int{"names": 2}, map[string]int{"names": 3}, []string{"end-installed"}, "flush after a lookup install"),
+		ch("verifHarnessC13ConcurrentLookups", map[string]int{"names": 1}, map[string]int{"names": 2}, []string{"end"}, "two overlapping lookups of different names: the cache ends up holding every known secret whatever the order of their cache writes"))
 	propRegistry = append(propRegistry, c13)
 
 	c12 := &Property{ID: "C12", Pkgs: []string{"client/setec"}, Bounds: map[string]string{"names": "2 / 3"}}
@@ -118,6 +120,8 @@ func init() {
 		ch("verifHarnessC12ApplyUpdates", map[string]int{"names": 2}, map[string]int{"names": 3}, []string{"end", "end-watched-updated"}, "applyUpdates with an arbitrary update set: invariant J, lock set, handles keep their names, values replaced never mutated"),
 		ch("verifHarnessC19HandleStamps", map[string]int{"names": 2}, map[string]int{"names": 3}, []string{"end-known"}, "a handle call returns its own installed bytes, sends no request, releases the lock"),
 		ch("verifHarnessC12HandleSeesInstall", map[string]int{"names": 2}, map[string]int{"names": 3}, []string{"end"}, "a handle obtained earlier returns each newly installed value, in install order, without any request"),
+		ch("verifHarnessC12RacingLookups", map[string]int{"names": 1}, map[string]int{"names": 2}, []string{"end"}, "two racing lookups of the same unknown name (two fetches): every handle for the name follows later installs"),
+		ch("verifHarnessC13ConcurrentLookups", map[string]int{"names": 1}, map[string]int{"names": 2}, []string{"end"}, "two overlapping lookups of different names: both installed, lock released, cache complete"),
 		ch("verifHarnessC12Close", map[string]int{"names": 2}, map[string]int{"names": 3}, []string{"end"}, "Close cancels the poller and returns; handles keep serving afterwards"),
 		ch("verifHarnessC13ShutdownFlush", map[string]int{"names": 2}, map[string]int{"names": 3}, []string{"end"}, "the poller releases the store's lock on every exit path, also when the shutdown flush fails: handles keep serving without blocking"),
 		ch("verifHarnessC16Lookup", map[string]int{"names": 2}, map[string]int{"names": 3}, []string{"end-installed", "end-failed", "end-known", "end-disabled"}, "lookup under lock-set obligations: no request under the lock"),
